@@ -1002,7 +1002,7 @@ func c05Continuation(c *core.Ctx) {
 				// the loop exit: only on a short page
 				shortPage := false
 				for _, cd := range facts.CondsAt(ci.Block()) {
-					if x, op, y, okc := facts.Cmp(cd); okc && op == token.GEQ {
+					if x, op, y, okc := cmpLenFirst(cd); okc && op == token.GEQ {
 						if lc, isCall := x.(*ssa.Call); isCall {
 							if bi, isB := lc.Call.Value.(*ssa.Builtin); isB && bi.Name() == "len" && facts.Resolve(lc.Call.Args[0]) == xs {
 								if _, fld, isF := facts.FieldOf(facts.Resolve(y)); isF && fld == "ListN" {
